@@ -57,6 +57,9 @@ def gen_s1(seed, corpus, ref, instr_frac=0.1, sa_frac=0.0):
     ncl = _weighted(rng, [(2, 4), (3, 4), (4, 2)])
     clients = [[sub[rng.randrange(len(sub))] for _ in range(rng.randint(2, 8))] for _ in range(ncl)]
     gran = 'instr' if rng.random() < instr_frac else 'line'
+    if gran == 'instr':
+        # bytecode granularity costs ~4.6x the events: keep such runs short
+        clients = [cl[:3] for cl in clients]
     scope = ['repo'] + (['sqlalchemy', 'copy'] if rng.random() < sa_frac else [])
     est = sum(_ev(ref, op, gran) for cl in clients for op in cl)
     spec = {
@@ -66,7 +69,7 @@ def gen_s1(seed, corpus, ref, instr_frac=0.1, sa_frac=0.0):
         'rnd_mode': _weighted(rng, [('shared', 6), ('client', 2), ('op', 2)]),
         'meta_share': rng.random() < 0.6,
         'strategy': _strategy(rng, est), 'sched_seed': rng.randrange(1 << 30),
-        'faults': [], 'gcs': [],
+        'faults': [], 'gcs_at': [],
     }
     if rng.random() < 0.4:
         for _ in range(_weighted(rng, [(1, 6), (2, 3), (3, 1)])):
@@ -78,8 +81,8 @@ def gen_s1(seed, corpus, ref, instr_frac=0.1, sa_frac=0.0):
     if rng.random() < 0.3:
         for _ in range(rng.randint(1, 3)):
             c = rng.randrange(ncl)
-            tot = sum(_ev(ref, op, gran) for op in clients[c])
-            spec['gcs'].append([c, rng.randint(1, tot)])
+            oi = rng.randrange(len(clients[c]))
+            spec['gcs_at'].append([c, oi, rng.randint(1, _ev(ref, clients[c][oi], gran))])
     return spec
 
 
@@ -98,7 +101,7 @@ def gen_s2(seed, corpus, ref):
         'cat_mode': _weighted(rng, [('shared', 8), ('op', 2)]),
         'rnd_mode': _weighted(rng, [('shared', 8), ('op', 2)]),
         'meta_share': rng.random() < 0.7,
-        'strategy': {'kind': 'none'}, 'sched_seed': 0, 'faults': [], 'gcs': [],
+        'strategy': {'kind': 'none'}, 'sched_seed': 0, 'faults': [], 'gcs_at': [],
     }
     if rng.random() < 0.5:
         for oi in sorted(rng.sample(range(n), min(n, rng.randint(1, 4)))):
@@ -106,9 +109,9 @@ def gen_s2(seed, corpus, ref):
             kind = _weighted(rng, [('abort', 6), ('mem', 2), ('rec', 2)])
             spec['faults'].append([0, oi, rng.randint(1, k), kind])
     if rng.random() < 0.3:
-        tot = sum(_ev(ref, op, 'line') for op in ops)
         for _ in range(rng.randint(1, 3)):
-            spec['gcs'].append([0, rng.randint(1, tot)])
+            oi = rng.randrange(n)
+            spec['gcs_at'].append([0, oi, rng.randint(1, _ev(ref, ops[oi], 'line'))])
     return spec
 
 
